@@ -115,6 +115,47 @@ CHECKS['C12'] = dict(
     note='No parallel links; completeness only for single pairs; one listed known finding (STRICT include inside an '
          'OMS for grouped requests).', ref='3/C12')
 
+CHECKS['C13'] = dict(
+    technique='runtime monitors on the real path-request flow: receiver GSNR / penalty recomputation from recorded '
+              'arrays; differential oracle (every candidate mode through the fixed-mode flow on a fresh copy, '
+              'thresholds placed adversarially around the measured metric) for verdicts and automatic selection',
+    text='Each request is run through planning(); the verdict and the selected mode must agree with an oracle that '
+         'knows, by construction, on which side of each threshold every mode lies. Exploration.',
+    note='Ties not generated; the fresh fixed-mode evaluation is the reference; one listed known finding (same baud '
+         'rate, different power offsets).', ref='3/C13')
+CHECKS['C14'] = dict(
+    technique='runtime monitor: the real assignment routine stepped request by request, every step replayed against '
+              'an executable allocator model (history + model checker over recorded bitmaps)',
+    text='After each request the outcome and every OMS map are compared with a set-based model: disjointness both '
+         'directions, guard bands, usable slots, enough slots, first fit by brute force, fixed values honoured, '
+         'blocked => unchanged, occupancy = union. Exploration over synthetic histories and planning() batches.',
+    note='First-fit optimality judged for fully free requests; usable slots / guard limits taken from the initial maps.',
+    ref='3/C14')
+CHECKS['C15'] = dict(
+    technique='runtime monitors: icontract class invariant on the real Bitmap; structural checker on build_oms_list '
+              'output; alignment checker on random map sets',
+    text='OMS partition, end points, reverse pairing, common slot range and usable-band marking are checked on '
+         'networks whose OMS differ in bands; grid alignment on maps of different extents. Exploration.',
+    note='Slots within one grid step of a band edge not judged; amplifier bands from the loaded library.', ref='3/C15')
+CHECKS['C16'] = dict(
+    technique='runtime monitor: history checker over repeated planning() runs on one network object (alone / first / '
+              'last / random orders) + canonical network digest + count of propagations touching network objects',
+    text='Every request result (route, mode, metrics, verdict) must be identical in every batch composition and the '
+         'network digest unchanged after every run. Exploration over batches with saturating and blocked requests.',
+    note='No synchronisation vectors, no aggregatable duplicates; spectrum labels and spectrum blocking excluded.',
+    ref='3/C16')
+CHECKS['C17'] = dict(
+    technique='runtime monitor: idempotence checker over recorded exports (fresh design twice, export/reload/redesign '
+              'rounds) + SimParams before/after every design + propagated GSNR comparison',
+    text='Generated inputs are designed, exported, read back as load_network does and redesigned for 1..3 rounds under '
+         'random simulation parameters. Exploration; two listed known findings (EOL re-added; Raman upstream amp).',
+    note='Numbers to the export rounding, structure exact, GSNR 1e-4 dB.', ref='3/C17')
+CHECKS['C18'] = dict(
+    technique='runtime monitors: idempotence checker over recorded conversions, leaf-by-leaf comparison against the '
+              'declared fraction digits, loader-equivalence differential, alias checker; libyang validation as gate',
+    text='Generated documents of the five kinds are converted back and forth and loaded from either form. Exploration.',
+    note='Valid document = passes libyang validation; loader objects compared with 1e-5 relative slack.', ref='3/C18')
+
 NOT_APPLICABLE = {
 }
 
